@@ -349,9 +349,9 @@ impl<W, R, T> CompilationScope<'_, W, R, T> {
                 let mut inners = input.clone().into_inner();
                 let part1 = inners.next().unwrap();
                 match part1.as_rule() {
-                    Rule::signature => {
-                        let mut sig_inners = part1.into_inner();
-                        let param_spec_opt = sig_inners.next().unwrap();
+                    Rule::paren_type => {
+                        let mut paren_inners = part1.into_inner();
+                        let param_spec_opt = paren_inners.next().unwrap();
                         let param_types = param_spec_opt
                             .into_inner()
                             .next()
@@ -370,36 +370,21 @@ impl<W, R, T> CompilationScope<'_, W, R, T> {
                             })
                             .transpose()?
                             .unwrap_or_default();
-                        let return_type = self.get_complete_type(
-                            sig_inners.next().unwrap(),
-                            generic_param_names,
-                            interner,
-                            tail_name,
-                            false,
-                        )?;
-                        Ok(Arc::new(XType::XCallable(XCallableSpec {
-                            param_types,
-                            return_type,
-                        })))
-                    }
-                    Rule::tup_type => {
-                        let mut tup_inners = part1.into_inner();
-                        match tup_inners.next() {
-                            None => Ok(Arc::new(XType::Tuple(vec![]))),
-                            Some(inner) => {
-                                let tup_types = inner
-                                    .into_inner()
-                                    .map(|i| {
-                                        self.get_complete_type(
-                                            i,
-                                            generic_param_names,
-                                            interner,
-                                            tail_name,
-                                            false,
-                                        )
-                                    })
-                                    .collect::<Result<Vec<_>, _>>()?;
-                                Ok(Arc::new(XType::Tuple(tup_types)))
+                        match paren_inners.next() {
+                            // no return part: a tuple type
+                            None => Ok(Arc::new(XType::Tuple(param_types))),
+                            Some(signature_return) => {
+                                let return_type = self.get_complete_type(
+                                    signature_return.into_inner().next().unwrap(),
+                                    generic_param_names,
+                                    interner,
+                                    tail_name,
+                                    false,
+                                )?;
+                                Ok(Arc::new(XType::XCallable(XCallableSpec {
+                                    param_types,
+                                    return_type,
+                                })))
                             }
                         }
                     }
